@@ -4,6 +4,7 @@ pub mod matching;
 pub mod notation;
 pub mod print;
 pub mod rules;
+pub mod scan;
 pub mod splice;
 pub mod suppress;
 pub mod tables;
@@ -38,6 +39,8 @@ pub fn run(unit: &str, ctx: &Ctx, rng: &mut Rng, o: &mut Out) -> bool {
     "edit_range" => splice::edit_range(ctx, rng, o),
     "update_cli" => splice::update_cli(ctx, rng, o),
     "c06_cli" => splice::c06_cli(ctx, rng, o),
+    "scan" => scan::scan_unit(ctx, rng, o),
+    "scan_cli" => scan::cli_unit(ctx, rng, o),
     "cut" => matching::cut_unit(ctx, rng, o),
     "near_miss" => matching::near_miss_unit(ctx, rng, o),
     "rules_shared" => rules::rules_unit(ctx, rng, o, true),
